@@ -105,6 +105,10 @@ func (h *Hist) genConfigs() {
 			}
 			o.DryMode = false
 		}
+		if realCtorAlways && focus == "dry" && ng > 1 && !h.globalDry && r.chance(75) {
+			// a dry group listed before a live one: whatever the constructor derives from one group must not reach the next
+			o.DryMode = i < ng-1
+		}
 		h.cfgs = append(h.cfgs, o)
 		h.pcfgs = append(h.pcfgs, protoCfg(o))
 
